@@ -469,6 +469,10 @@ DB = "nostr_relay/storage/db.py"
 VAL = "nostr_relay/validators.py"
 
 MUTANTS = [
+    M("c03-id-compare-dropped", VAL,
+      "    if event.id != Event.compute_id(\n        event.pubkey, event.created_at, event.kind, event.tags, event.content\n    ):\n        raise StorageError(\"invalid: Bad id\")\n",
+      "", "C03.id"),
+    M("c03-id-compare-logged-only", VAL, "        raise StorageError(\"invalid: Bad id\")", "        logging.getLogger(__name__).warning(\"bad id\")", "C03.id"),
     M("c03-kv-drop-validate", KV, "        await self.validate_event(event, Config)\n\n        if not event.is_ephemeral:",
       "        if not event.is_ephemeral:", "C03.gate", canary=True),
     M("c03-db-validate-after-insert", DB,
@@ -495,5 +499,7 @@ MUTANTS = [
 
 EQUIVS = [
     E("c03-eq-is-signed-else", VAL, "    if not event.verify():\n        raise StorageError(\"invalid: Bad signature\")",
-      "    if event.verify():\n        return\n    raise StorageError(\"invalid: Bad signature\")"),
+      "    if event.verify():\n        pass\n    else:\n        raise StorageError(\"invalid: Bad signature\")"),
+    E("c03-eq-id-eq-form", VAL, "    ):\n        raise StorageError(\"invalid: Bad id\")",
+      "    ):\n        raise StorageError(\"invalid: id is not the event hash\")"),
 ]
